@@ -419,6 +419,15 @@ def gen_raman_low_case(rng):
             'p': 10 ** rng.uniform(-13, -11)}
 
 
+def gen_raman_low_pf_case(rng):
+    """low-power limit on a plain fibre whose loss coefficient is a per-frequency table (every channel has its own
+    budget); own PRNG stream so that the other streams of a seed stay what they were"""
+    c = gen_raman_low_case(rng)
+    c['params']['loss_coef'] = gen_table(rng, 191.6e12, 195.8e12, 0.17, 0.3, 2, cover=True)
+    c['f'] = [191.6e12 + i * 4.2e12 / 4 for i in range(4)]
+    return c
+
+
 def gen_raman_cmp_case(rng):
     p = gen_raman_fiber(rng)
     n = rng.choice([4, 10, 20, 40])
@@ -1248,6 +1257,24 @@ def drive_raman_low(ctx, case, sim):
     finally:
         sim.set()
     lumped = p['lumped_losses']
+    if isinstance(p['loss_coef'], dict):      # per-frequency loss table: every channel against its own budget
+        ctx.count('raman_low_per_frequency_' + case['method'])
+        worst = None
+        for f, x in zip(case['f'], loss):
+            bud_f = fiber_budget_py(p, f)
+            a_f = (bud_f - p['att_in'] - p['con_in'] - p['con_out'] - sum(l['loss'] for l in lumped)) / p['length'] * 1e-3 / LOG10E10
+            zz = np.unique(np.concatenate((np.array([l['position'] * 1e3 for l in lumped]), solver_z(p['length'] * 1e3, case['step']))))
+            if case['method'] == 'numerical' and float(np.max(a_f * np.diff(zz))) > 0.5:
+                continue
+            bnd = 2 * LOG10E10 * float(np.sum((a_f * np.diff(zz)) ** 2)) if case['method'] == 'numerical' else 0.0
+            if abs(x - bud_f) > bnd + 1e-7 and (worst is None or abs(x - bud_f) > worst[0]):
+                worst = (abs(x - bud_f), f, x, bud_f, bnd)
+        if worst and not positions_dup(lumped):
+            ctx.violation('raman_low_power', f"Raman on ({case['method']}, order {case['order']}, step {case['step']} m), plain fibre with a "
+                          f"per-frequency loss table, {case['p']:.1e} W/channel: channel {worst[1]:.6e} Hz loses {worst[2]:.9f} dB, its budget "
+                          f"(att_in + con_in + L*loss_coef(f) + lumped + con_out) is {worst[3]:.9f} dB, deviation {worst[0]:.3e} > Euler bound "
+                          f"{worst[4]:.3e} + 1e-7", cs)
+        return None, None
     bud = p['att_in'] + p['con_in'] + p['length'] * p['loss_coef'] + sum(l['loss'] for l in lumped) + p['con_out']
     a_np = p['loss_coef'] * 1e-3 / LOG10E10
     zz = np.unique(np.concatenate((np.array([l['position'] * 1e3 for l in lumped]), solver_z(p['length'] * 1e3, case['step']))))
@@ -1499,6 +1526,8 @@ def run(ctx):
         cases += [gen_raman_low_case(rng) for _ in range(ctx.scale(20, 300))]
         cases += [gen_raman_cmp_case(rng) for _ in range(ctx.scale(6, 60))]
         cases += [gen_raman_pump_case(rng) for _ in range(ctx.scale(16, 200))]
+        rng_pf = __import__("random").Random(ctx.seed * 7919 + 5)
+        cases += [gen_raman_low_pf_case(rng_pf) for _ in range(ctx.scale(12, 150))]
     terms, post = [], []
     fterms, fpost = [], []          # binary64 (NumF) terms
     with Sim() as sim:
